@@ -251,9 +251,9 @@ package replication
 //@   modifies nothing
 //@ func (*Manager).Start$1
 //@   maypanic
-//@   requires *m != nil && (*m).log != nil && allocated((*m).closer)
-//@   modifies nothing
-//@   loop 0 invariant *m == old(*m) && (*m).log != nil && (*m).closer == old((*m).closer) && t != nil && t.C != (*m).closer
+//@   requires *m != nil && (*m).log != nil && allocated((*m).closer) && (*m).metadataClient != nil && (*m).engine != nil && (*m).engine.Manager != nil && (*m).engine.Manager.store != nil && (*m).engine.Manager.nh != nil
+//@   modifies (*m).engine.Manager.lastTables, family(G_any_rHas), family(G_any_rPair), family(G_any_nwk), family(G_any_wVal), family(G_any_wVer), family(G_any_wDel), family(G_any_wPrevHas), family(G_any_wPrev), world.clock
+//@   loop 0 invariant *m == old(*m) && (*m).log != nil && (*m).closer == old((*m).closer) && t != nil && t.C != (*m).closer && (*m).metadataClient != nil && (*m).engine == old((*m).engine) && (*m).engine.Manager == old((*m).engine.Manager) && (*m).engine.Manager.store == old((*m).engine.Manager.store) && (*m).engine.Manager.nh == old((*m).engine.Manager.nh)
 //@   loop 0 leave [C05.mgr.alive+C15] world.lastSel == (*m).closer
 
 // NewManager (replication): the factory every worker is built from carries the engine, the queue, the
